@@ -1726,7 +1726,8 @@ func updateArraySlice(v []any, m map[string]any, path []any, n any, a allocator)
 		}
 		return v, nil
 	}
-	u, err := update(v[start:end], path, n, a)
+	// limit the capacity not to overwrite v[end:] on updating the slice
+	u, err := update(v[start:end:end], path, n, a)
 	if err != nil {
 		return nil, err
 	}
